@@ -1,36 +1,364 @@
-import I18n.Model.Check
+import I18n.Model.Pipeline
 import I18n.Lemmas.PluralNoCrash
 import I18n.Props.C02
 import I18n.Props.C04
 import I18n.Props.C09
 import I18n.Props.C11
+import I18n.Props.C12
+import I18n.Props.C18
+import I18n.Props.C19
 /-!
 # C01 — every input file is handled without crash, hang or abnormal exit   (PARTIAL: see below)
 
-What is proved here is the *exception closure* of the pipeline, as a composition:
+What is proved here is the *exception closure* of the pipeline `cli.main → check_all → check_file → Checker.check → check_*`,
+as a composition, with the exception-to-tag mapping READ FROM THE SOURCE on every run:
 
-* `Check.check` models `Checker.check` (stat, extension dispatch, loader call with its `UnicodeDecodeError` retry, the
-  nested `try`/`except`/`finally`, the nine `check_*` stages in order) with the loader and the stages as parameters.
-  `check_uncaught_iff` says exactly when an exception leaves it; `check_total` is the positive form: if the loader
-  raises only what `check` handles and no stage raises, the run returns normally, for every input.
-* `loader_failure_lines`, `unreadable_is_tag`, `unknown_type_is_tag`, `broken_encoding_iff`: every problem of the
-  input that the loader detects is reported as exactly one tag (plus the pending `broken-encoding`), and nothing else
-  is derived from the file.
-* The hypotheses are discharged by the component models, for all inputs: the MO loader (`mo_check_total`, from C09's
-  `parse_total_closed`), `check_plurals` (`plurals_stage_total`: the lexer/parser never yields `ValueError` since the
-  `int()` limit was lifted, the window and gap analyses never raise: C05/C06/C07), the C format parser
-  (`cformat_errors_own`: C11).  The models built for C10, C12–C16, C18–C20 export their own closure theorems in their
-  `Props` files (named in DESIGN.md); each is one more discharged hypothesis of `check_total`.
+* `Generated/ExcMap.lean` (tools/translate/excmap2lean.py) holds every `try` statement of lib/ with the classes each `except`
+  clause catches (resolved on the live class objects), the tags the clause emits and how it ends, plus the explicit `raise`,
+  `assert` and `warn` sites and the exception classes each strformat module defines.  Section 1 pins what C01 needs of it:
+  `strformat_errors_caught` (EVERY exception class defined by a strformat module derives from the module's `Error` and is turned
+  into that format's `*-format-string-error` tag by `check_string`, and swallowed by `check_message`), `warnings_caught`,
+  `plural_errors_caught`, `arithmetic_errors_caught`, `date_errors_caught`, `xml_errors_caught`, `charset_errors_caught`,
+  `language_errors_caught`, `loader_classification`, `deb_errors_caught`.  A narrowed `except` clause, a class re-parented away
+  from `Error`, a handler that stops emitting its tag: each breaks a pin (and sends the check to its falsifier).
+* `ExcFlow.checkString` is `check_string` of a format checker over those tables; `cCheckString_nocrash` / `pyCheckString_nocrash`
+  discharge it for the C and Python %-format backends from C11 `parse_error_own` / C12 `error_own`; the two brace backends are
+  `braceCheckString_nocrash` under the NAMED hypothesis that their parsers raise only their own `Error` (C13).
+* `Check.check` models `Checker.check` (stat, extension dispatch, loader call with its `UnicodeDecodeError` retry, the nested
+  `try`/`except`/`finally`, the nine `check_*` stages in order); `check_uncaught_iff` says exactly when an exception leaves it,
+  `check_total` is the positive form, `loader_failure_lines` / `unreadable_is_tag` / `unknown_type_is_tag` /
+  `broken_encoding_iff` say that every problem the loader detects is exactly one tag.
+* `Cli.main` models the return-code logic: `main_rc_zero_iff` (status 0 iff `-l` was accepted and no `check_file` raised),
+  `main_ok` (then stdout is the concatenation of the per-file lines, sequentially and with `-j`), `checkFile_ok` (`--unpack-deb`).
+* `pipeline_nocrash`: for every list of files, each unreadable / of another type / an MO byte string / a PO file, every `-l`
+  that is not rejected, every `-j`: exit status 0, empty stderr, only tag lines — the MO loader (C09), `check_language` (C19),
+  `check_plurals` (C04–C07) and `check_dates` (C18) being discharged here for all inputs, the components still under
+  construction entering as the fields of `Pending` (C10 PO loader; C15 header stages; C16 message stage, which itself rests on
+  C13/C14), to be replaced by those properties' theorems at merge time.
 * every line printed comes from `Tag.format`, whose grammar and cleanliness are C02's theorems (`line_is_tag_line`).
 
+REFUTED on the real code, not exhibited by any model here (the models recurse structurally): a plural expression nested deeper
+than the interpreter's recursion limit allows raises `RecursionError` in lib/intexpr.py (open finding, replayed on every run).
+`recursion_budget` states the frame count the evaluators need (2·depth + 3), which the check compares with the real limit.
+
 What no model here can exhibit, and is decided by the search of tools/checks/C01.py on the real code (test level):
-wall-clock/CPU time of CPython's regex engine and of `int()`, recursion depth (RecursionError on expressions nested
-deeper than the interpreter's limit: recorded finding), polib/rply/expat/iconv internals, the OS, `-j`.
+wall-clock/CPU time of CPython's regex engine and of `int()`, polib/rply/expat/iconv internals, the OS, `-j` process
+failures, the terminal encoding.
 -/
 namespace I18n.Props.C01
-open I18n I18n.Check
+open I18n I18n.Check I18n.ExcFlow I18n.Pipeline I18n.Generated.ExcMap
 
-/-! ## the stages -/
+set_option maxRecDepth 8000
+
+/-! ## 1. the exception map of the source -/
+
+def cls (name : String) : Cls := clsId name
+def className (c : Cls) : String := classNames.getD c "?"
+
+/-- a handler as (caught class names, tags, ending) -/
+def view (h : Handler) : List String × List String × End := (h.classes.map className, h.tags, h.fin)
+
+def backendFile (fmt : String) : String :=
+  if fmt = "c" then "c" else if fmt = "python" then "python" else if fmt = "python-brace" then "pybrace" else "perlbrace"
+
+/-- `check_string` of the checker registered for a format flag -/
+def checkStringSite (fmt : String) : TrySite := site ("lib/check/msgformat/" ++ backendFile fmt ++ ".py") "Checker.check_string" 0
+/-- the `try` around `self.backend.FormatString(s)` for a msgid of a non-template in `check_message` -/
+def checkMessageSite (fmt : String) : TrySite := site ("lib/check/msgformat/__init__.py[" ++ fmt ++ "]") "Checker.check_message" 0
+
+/-- the file of a strformat backend, as it appears in `raiseSites` -/
+def strformatFile (fmt : String) : String := "lib/strformat/" ++ backendFile fmt ++ ".py"
+
+/-- an exception of class `c` raised while parsing a string of format `fmt` is reported by `check_string` of the checker
+    registered for the format as exactly that format's `…-format-string-error` tag (the clause then falls through to
+    `return fmt`), and is swallowed (`return`) by `check_message` when it parses a msgid -/
+def caughtAsError (fmt : String) (c : Cls) : Bool :=
+  ((dispatch (checkStringSite fmt).handlers c).map (fun h => (h.tags, h.fin)) == some ([fmt ++ "-format-string-error"], .fallthrough)) &&
+  ((dispatch (checkMessageSite fmt).handlers c).map (fun h => (h.tags, h.fin)) == some ([], .ret))
+
+/-- **every own-`Error` subclass of every strformat module** (the classes are enumerated from the live module) is caught by
+    `check_string` / `check_message` of its caller as described by `caughtAsError`; and so is **every class of the module that
+    one of its `raise` statements names**, whether or not it derives from `Error` — a class re-parented away from `Error` that is
+    still raised breaks this pin, one that is only ever recorded as a warning does not (it is `warnings_caught`'s business) -/
+theorem strformat_errors_caught :
+    (ownErrors.map (·.1) = ["c", "perl-brace", "python", "python-brace"]) ∧
+    (ownErrors.all fun (fmt, _, err, defined) =>
+      defined.contains err &&
+      (defined.all fun c => !isSub c err || caughtAsError fmt c) &&
+      (raiseSites.all fun (file, _, c) => !(file == strformatFile fmt && defined.contains c) || caughtAsError fmt c)) = true := by
+  decide
+
+/-- the checkers use the backends whose classes were enumerated -/
+theorem checkers_pin : checkers.map (fun (f, _, b) => (f, b)) = ownErrors.map (fun (f, b, _, _) => (f, b)) := by decide
+
+/-- **every class that ends up in `fmt.warnings`** (the `parent.warn(<Class>, …)` calls of the parsers) is caught by the `try`
+    inside `for warn in fmt.warnings: raise warn` of the same format's `check_string`, by a clause that emits one tag and goes on;
+    the two brace parsers record no warnings -/
+theorem warnings_caught :
+    (warnSites.all fun (file, _, c) =>
+      (file == "lib/strformat/c.py" &&
+        ((dispatch cWarnSite.handlers c).map (fun h => (h.tags.length, h.fin)) == some (1, .fallthrough))) ||
+      (file == "lib/strformat/python.py" &&
+        ((dispatch pyWarnSite.handlers c).map (fun h => (h.tags.length, h.fin)) == some (1, .fallthrough)))) = true := by
+  decide
+
+/-- **plural forms**: the lexer's and the parser's exceptions (rply) become `PluralExpressionSyntaxError` in
+    `parse_plural_expression`; that and `PluralFormsSyntaxError` are caught by `check_plurals`, which reports
+    `syntax-error-in-(unused-)plural-forms` and returns -/
+theorem plural_errors_caught :
+    let pe := site "lib/gettext.py" "parse_plural_expression" 0
+    let cp := site "lib/check/__init__.py" "Checker.check_plurals" 0
+    (dispatch pe.handlers (cls "rply.errors.LexingError")).map (·.fin) = some (.raises [cls "lib.gettext.PluralExpressionSyntaxError"]) ∧
+    (dispatch pe.handlers (cls "rply.errors.ParsingError")).map (·.fin) = some (.raises [cls "lib.gettext.PluralExpressionSyntaxError"]) ∧
+    (dispatch cp.handlers (cls "lib.gettext.PluralExpressionSyntaxError")).map view =
+      some (["lib.gettext.PluralFormsSyntaxError"], ["syntax-error-in-plural-forms", "syntax-error-in-unused-plural-forms"], .ret) ∧
+    (dispatch cp.handlers (cls "lib.gettext.PluralFormsSyntaxError")).map (·.fin) = some .ret := by
+  decide
+
+/-- **arithmetic failures**: the two exceptions the evaluator raises (`OverflowError` from `_check_overflow`,
+    `ZeroDivisionError` from `//` and `%`) are caught by the `try` around the window loop of `check_plurals`, each by a clause
+    that reports `arithmetic-error-in-(unused-)plural-forms` and goes on to the range analysis -/
+theorem arithmetic_errors_caught :
+    let cp := site "lib/check/__init__.py" "Checker.check_plurals" 1
+    (dispatch cp.handlers (cls "builtins.OverflowError")).map view =
+      some (["builtins.OverflowError"], ["arithmetic-error-in-plural-forms", "arithmetic-error-in-unused-plural-forms"], .fallthrough) ∧
+    (dispatch cp.handlers (cls "builtins.ZeroDivisionError")).map view =
+      some (["builtins.ZeroDivisionError"], ["arithmetic-error-in-plural-forms", "arithmetic-error-in-unused-plural-forms"], .fallthrough) ∧
+    -- and nothing else: a RecursionError, ValueError, … from the evaluator passes through
+    dispatch cp.handlers (cls "builtins.RecursionError") = none ∧ dispatch cp.handlers (cls "builtins.ValueError") = none ∧
+    (raiseSites.filter (fun (f, fn, _) => f == "lib/intexpr.py" && fn == "Evaluator._check_overflow")).map (·.2.2) =
+      [cls "builtins.OverflowError", cls "builtins.OverflowError"] := by
+  decide
+
+/-- **dates**: `fix_date_format` raises `BoilerplateDate`, `DateSyntaxError` (and `ValueError` for a malformed hint, which
+    `check_dates` never passes: C18); `check_dates` reports the first as `boilerplate-in-date` — the clause comes first although
+    the class derives from `DateSyntaxError` — and the second as `invalid-date`, then continues with the next value -/
+theorem date_errors_caught :
+    let cd := site "lib/check/__init__.py" "Checker.check_dates" 1
+    (dispatch cd.handlers (cls "lib.gettext.BoilerplateDate")).map view = some (["lib.gettext.BoilerplateDate"], ["boilerplate-in-date"], .cont) ∧
+    (dispatch cd.handlers (cls "lib.gettext.DateSyntaxError")).map view = some (["lib.gettext.DateSyntaxError"], ["invalid-date"], .cont) ∧
+    isSub (cls "lib.gettext.BoilerplateDate") (cls "lib.gettext.DateSyntaxError") = true ∧
+    ((raiseSites.filter (fun (f, fn, _) => f == "lib/gettext.py" && (fn == "fix_date_format" || fn == "parse_date"))).all fun (_, _, c) =>
+      isSub c (cls "lib.gettext.DateSyntaxError") || c == cls "builtins.ValueError") = true ∧
+    -- strptime's ValueError becomes DateSyntaxError in both places
+    (dispatch (site "lib/gettext.py" "parse_date" 0).handlers (cls "builtins.ValueError")).map (·.fin) = some (.raises [cls "lib.gettext.DateSyntaxError"]) := by
+  decide
+
+/-- **XML**: expat's `ExpatError` (= `xml.SyntaxError`) is caught at both calls of `xml.check_fragment` -/
+theorem xml_errors_caught :
+    (dispatch (site "lib/check/__init__.py" "Checker._check_message_xml_format" 0).handlers (cls "xml.parsers.expat.ExpatError")).map (fun h => (h.tags, h.fin))
+      = some (["malformed-xml"], .ret) ∧
+    (dispatch (site "lib/check/__init__.py" "Checker._check_message_xml_format" 1).handlers (cls "xml.parsers.expat.ExpatError")).map (fun h => (h.tags, h.fin))
+      = some (["malformed-xml"], .fallthrough) := by
+  decide
+
+/-- **charset**: an unknown encoding name (`EncodingLookupError`) is `unknown-encoding` / `boilerplate-in-content-type` -/
+theorem charset_errors_caught :
+    (dispatch (site "lib/check/__init__.py" "Checker.check_mime" 0).handlers (cls "lib.encodings.EncodingLookupError")).map (fun h => (h.tags, h.fin))
+      = some (["boilerplate-in-content-type", "unknown-encoding"], .fallthrough) ∧
+    isSub (cls "lib.encodings.EncodingLookupError") (cls "builtins.LookupError") = true := by
+  decide
+
+/-- **language**: both `LanguageError` subclasses are caught wherever `check_language` parses or fixes a locale name, the
+    `LookupError` of `get_language_for_name` wherever it looks a name up; on the command line `-l` is rejected through `ap.error` -/
+theorem language_errors_caught :
+    ([1, 2, 3, 5].all fun k =>
+      [cls "lib.ling.LanguageSyntaxError", cls "lib.ling.FixingLanguageCodesFailed", cls "lib.ling.LanguageError"].all fun c =>
+        (dispatch (site "lib/check/__init__.py" "Checker.check_language" k).handlers c).map (·.fin) == some .fallthrough) = true ∧
+    ([4, 6].all fun k =>
+      (dispatch (site "lib/check/__init__.py" "Checker.check_language" k).handlers (cls "builtins.LookupError")).map (·.fin) == some .fallthrough) = true ∧
+    (dispatch (site "lib/cli.py" "main" 0).handlers (cls "lib.ling.LanguageSyntaxError")).isSome = true ∧
+    (dispatch (site "lib/cli.py" "main" 0).handlers (cls "lib.ling.FixingLanguageCodesFailed")).isSome = true := by
+  decide
+
+/-- **Debian packages**: a helper that fails (`CalledProcessError`) is turned into `UnsupportedFileType`, which `check_file`
+    catches (`pass`) before checking the path as a regular file (/repo 4ff67ee) -/
+theorem deb_errors_caught :
+    (dispatch (site "lib/cli.py" "check_deb" 0).handlers (cls "subprocess.CalledProcessError")).map (·.fin) = some (.raises [cls "lib.cli.UnsupportedFileType"]) ∧
+    (dispatch (site "lib/cli.py" "check_file" 0).handlers (cls "lib.cli.UnsupportedFileType")).map (·.fin) = some .pass := by
+  decide
+
+/-- the three `try` statements of `Checker.check`, as the model `Check.check` assumes them -/
+theorem check_sites_pin :
+    checkStat.handlers.map view = [(["builtins.OSError"], ["os-error"], .ret)] ∧
+    checkInner.handlers.map view = [(["builtins.UnicodeDecodeError"], [], .fallthrough)] ∧
+    checkOuter.handlers.map view = [(["lib.moparser.SyntaxError"], ["invalid-mo-file"], .ret),
+                                    (["builtins.OSError"], ["os-error", "syntax-error-in-po-file"], .mayReraise)] ∧
+    checkOuter.hasFinally = true ∧ checkOuter.finallyTags = ["broken-encoding"] := by
+  decide
+
+/-- **how `Checker.check` classifies what a loader raises**, for EVERY class of the table and every value of the two
+    attributes it looks at: `UnicodeDecodeError` (only) is retried; `moparser.SyntaxError` is `invalid-mo-file`; an `OSError`
+    (any subclass) is `os-error` if it carries an errno, `syntax-error-in-po-file` if its text says so, re-raised otherwise;
+    anything else is not handled.  On the retry a second `UnicodeDecodeError` is not handled. -/
+theorem loader_classification :
+    ((List.range classNames.length).all fun c => [true, false].all fun en => [true, false].all fun tx =>
+      let r : Raised := ⟨c, en, tx⟩
+      (loadErrOf r ==
+        (if c = cls "builtins.UnicodeDecodeError" then LoadErr.unicodeDecode
+         else if c = cls "lib.moparser.SyntaxError" then .moSyntax
+         else if isSub c (cls "builtins.OSError") then (if en then .osErrno else if tx then .poSyntax else .osOther)
+         else .other)) &&
+      (loadErrOfRetry r ==
+        (if c = cls "builtins.UnicodeDecodeError" then LoadErr.unicodeDecode
+         else if c = cls "lib.moparser.SyntaxError" then .moSyntax
+         else if isSub c (cls "builtins.OSError") then (if en then .osErrno else if tx then .poSyntax else .osOther)
+         else .other))) = true ∧
+    LoadErr.handledRetry .unicodeDecode = false := by
+  decide
+
+/-- the two exceptions the MO loader raises (C09) are the two `Model/Pipeline.moLoad` maps them to, and every flavour of "the
+    file cannot be read" that `open()` reports (an `OSError` subclass carrying an errno) is `os-error` — on the first call and on
+    the retry; polib's own `OSError('Syntax error in po file …')` (no errno) is `syntax-error-in-po-file` -/
+theorem loader_classes :
+    (∀ en tx, loadErrOf ⟨cls "lib.moparser.SyntaxError", en, tx⟩ = .moSyntax ∧ loadErrOfRetry ⟨cls "lib.moparser.SyntaxError", en, tx⟩ = .moSyntax) ∧
+    (∀ en tx, loadErrOf ⟨cls "builtins.UnicodeDecodeError", en, tx⟩ = .unicodeDecode) ∧
+    (["builtins.OSError", "builtins.PermissionError", "builtins.FileNotFoundError", "builtins.IsADirectoryError", "builtins.NotADirectoryError"].all fun n =>
+      [true, false].all fun tx => loadErrOf ⟨cls n, true, tx⟩ == .osErrno && loadErrOfRetry ⟨cls n, true, tx⟩ == .osErrno) = true ∧
+    loadErrOf ⟨cls "builtins.OSError", false, true⟩ = .poSyntax ∧ loadErrOf ⟨cls "builtins.OSError", false, false⟩ = .osOther ∧
+    -- a bare UnicodeError (what idna/punycode raise for malformed input) is NOT handled: lib/encodings.decode has to convert it (ded8ac2)
+    loadErrOf ⟨cls "builtins.UnicodeError", false, false⟩ = .other := by
+  refine ⟨?_, ?_, by decide, by decide, by decide, by decide⟩
+  · intro en tx; cases en <;> cases tx <;> decide
+  · intro en tx; cases en <;> cases tx <;> decide
+
+/-! ## 2. `check_string` over the tables -/
+
+theorem warnLoop_total (t : TrySite) (ws : List Cls) (h : ∀ w ∈ ws, (dispatch t.handlers w).isSome = true) :
+    (warnLoop t ws).2 = none := by
+  induction ws with
+  | nil => rfl
+  | cons w ws ih =>
+    have hw := h w (by simp)
+    unfold warnLoop
+    cases hd : dispatch t.handlers w with
+    | none => rw [hd] at hw; cases hw
+    | some hh => simp only; exact ih (fun w' hm => h w' (List.mem_cons_of_mem _ hm))
+
+/-- **`check_string` lets no exception escape** when the parser raises only classes the first `try` catches and records only
+    warnings the second one catches -/
+theorem checkString_nocrash {φ : Type} (errSite : TrySite) (warnSite : Option TrySite) (p : Parse φ)
+    (herr : ∀ c, p = .raised c → (dispatch errSite.handlers c).isSome = true)
+    (hwarn : ∀ f ws t, p = .ok (f, ws) → warnSite = some t → ∀ w ∈ ws, (dispatch t.handlers w).isSome = true) :
+    (checkString errSite warnSite p).uncaught = none := by
+  unfold checkString
+  cases p with
+  | raised c =>
+    have := herr c rfl
+    cases hd : dispatch errSite.handlers c with
+    | none => rw [hd] at this; cases this
+    | some h => simp [hd]
+  | ok fw =>
+    obtain ⟨f, ws⟩ := fw
+    cases warnSite with
+    | none => rfl
+    | some t => exact warnLoop_total t ws (hwarn f ws t rfl rfl)
+
+/-- a parse error is reported by exactly the tag of the clause that caught it, and `check_string` returns `None` -/
+theorem checkString_error {φ : Type} (errSite : TrySite) (warnSite : Option TrySite) (c : Cls) (h : Handler)
+    (hd : dispatch errSite.handlers c = some h) :
+    (checkString (φ := φ) errSite warnSite (.raised c)).fmt = none ∧
+    (checkString (φ := φ) errSite warnSite (.raised c)).tags = h.tags.take 1 := by
+  unfold checkString
+  simp [hd]
+
+theorem c_own_caught (e : CFmt.CErr) (h : e.own = true) : (dispatch cErrSite.handlers (cErrCls e)).isSome = true := by
+  cases e <;> first | (cases h; done) | decide
+
+theorem c_warn_caught (w : CFmt.Warn) : (dispatch cWarnSite.handlers (cWarnCls w)).isSome = true := by
+  cases w <;> decide
+
+/-- **`msgformat.c.Checker.check_string` never raises**, for every string (C11: the parser raises only its own `Error` classes) -/
+theorem cCheckString_nocrash (s : List Char) : (cCheckString s).uncaught = none := by
+  apply checkString_nocrash
+  · intro c hc
+    unfold cParse at hc
+    cases hp : CFmt.parse s with
+    | ok r => rw [hp] at hc; cases hc
+    | error e =>
+      rw [hp] at hc
+      cases hc
+      exact c_own_caught e (C11.parse_error_own hp)
+  · intro f ws t hp ht w hw
+    cases ht
+    unfold cParse at hp
+    cases hq : CFmt.parse s with
+    | error e => rw [hq] at hp; cases hp
+    | ok r =>
+      rw [hq] at hp
+      cases hp
+      obtain ⟨x, _, rfl⟩ := List.mem_map.1 hw
+      exact c_warn_caught x
+
+/-- an ill-formed C format string is reported as `c-format-string-error`, whatever the error -/
+theorem cCheckString_error_tag (s : List Char) (e : CFmt.CErr) (h : CFmt.parse s = .error e) :
+    (cCheckString s).fmt = none ∧ (cCheckString s).tags = ["c-format-string-error"] := by
+  have hown := C11.parse_error_own h
+  unfold cCheckString cParse
+  rw [h]
+  cases e <;> first | (cases hown; done) | decide
+
+theorem py_own_caught (e : PyFmt.PErr) (h : e.own = true) : (dispatch pyErrSite.handlers (pErrCls e)).isSome = true := by
+  cases e <;> first | (cases h; done) | decide
+
+theorem py_warn_caught (w : PyFmt.Warn) : (dispatch pyWarnSite.handlers (pWarnCls w)).isSome = true := by
+  cases w <;> decide
+
+/-- **`msgformat.python.Checker.check_string` never raises** (C12 `error_own`) -/
+theorem pyCheckString_nocrash (s : List Char) : (pyCheckString s).uncaught = none := by
+  apply checkString_nocrash
+  · intro c hc
+    unfold pyParse at hc
+    cases hp : PyFmt.parse s with
+    | ok r => rw [hp] at hc; cases hc
+    | error e =>
+      rw [hp] at hc
+      cases hc
+      exact py_own_caught e (C12.error_own hp)
+  · intro f ws t hp ht w hw
+    cases ht
+    unfold pyParse at hp
+    cases hq : PyFmt.parse s with
+    | error e => rw [hq] at hp; cases hp
+    | ok r =>
+      rw [hq] at hp
+      cases hp
+      obtain ⟨x, _, rfl⟩ := List.mem_map.1 hw
+      exact py_warn_caught x
+
+theorem pyCheckString_error_tag (s : List Char) (e : PyFmt.PErr) (h : PyFmt.parse s = .error e) :
+    (pyCheckString s).fmt = none ∧ (pyCheckString s).tags = ["python-format-string-error"] := by
+  have hown := C12.error_own h
+  unfold pyCheckString pyParse
+  rw [h]
+  cases e <;> first | (cases hown; done) | decide
+
+/-- the brace backends (python-brace, perl-brace): `check_string` never raises PROVIDED the parser raises only classes deriving
+    from its module's `Error` — the closure statement C13 is to deliver for lib/strformat/pybrace.py and perlbrace.py
+    (they record no warnings: `warnings_caught`) -/
+theorem braceCheckString_nocrash {φ : Type} (fmt : String) (hf : fmt = "python-brace" ∨ fmt = "perl-brace") (p : Parse φ)
+    (c13_own : ∀ c, p = .raised c → ∃ row ∈ ownErrors, row.1 = fmt ∧ row.2.2.2.contains c = true ∧ isSub c row.2.2.1 = true) :
+    (checkString (checkStringSite fmt) none p).uncaught = none := by
+  apply checkString_nocrash
+  · intro c hc
+    obtain ⟨row, hrow, hfmt, hc', hsub⟩ := c13_own c hc
+    have hall := strformat_errors_caught.2
+    rw [List.all_eq_true] at hall
+    have h1 := hall row hrow
+    obtain ⟨f, b, err, defined⟩ := row
+    simp only at hfmt hc' hsub
+    subst hfmt
+    simp only [Bool.and_eq_true, List.all_eq_true] at h1
+    have h2 := h1.1.2 c (List.contains_iff_mem.1 hc')
+    rw [hsub] at h2
+    simp only [Bool.not_true, Bool.false_or, caughtAsError, Bool.and_eq_true] at h2
+    cases hd : dispatch (checkStringSite f).handlers c with
+    | none => rw [hd] at h2; simp at h2
+    | some h => rfl
+  · intro f ws t _ ht
+    cases ht
+
+/-! ## 3. the stages -/
 
 theorem runStages_total {σ τ : Type} (stages : List (Stage σ τ)) (h : ∀ st ∈ stages, ∀ s, (st s).2.2 = false) (s : σ) :
     (runStages stages s).2 = false := by
@@ -62,7 +390,76 @@ theorem runStages_raise {σ τ : Type} (stages : List (Stage σ τ)) (s : σ) (h
       obtain ⟨st', hm, s'', hr⟩ := ih s' h
       exact ⟨st', List.mem_cons_of_mem _ hm, s'', hr⟩
 
-/-! ## `Checker.check` -/
+/-- **`check_plurals` never raises**, for every Plural-Forms value, message list and language whose registry strings parse
+    (C05 `codomain_nocrash`, C06 `period_nocrash`, C07 `window_nocrash` / `gap_nocrash`, and the lexer's `ValueError` outcome
+    being unreachable since `fix:` 871d4d7) — in the model, which recurses structurally: see `recursion_budget` -/
+theorem plurals_stage_total {σ : Type} (input : σ → CheckPlurals.Input) (store : σ → Option CheckPlurals.Preimage → σ)
+    (hreg : ∀ s, CheckPlurals.RegistryParses (input s)) (s : σ) : (pluralsStage input store s).2.2 = false := by
+  unfold pluralsStage
+  cases h : CheckPlurals.checkPlurals (input s) with
+  | ok out => rfl
+  | error ex => exact absurd h (CheckPlurals.checkPlurals_nocrash (input s) (hreg s) ex)
+
+/-- **`check_dates` never raises** (C18 `NoCrash`: the second `parse_date` cannot fail, the hint is well-formed, the length
+    assertion holds) -/
+theorem dates_stage_total {σ : Type} (input : σ → Date.Ctx) (s : σ) : (datesStage input s).2.2 = false := by
+  unfold datesStage
+  cases h : Date.checkDates (input s) with
+  | some tags => rfl
+  | none => exact absurd h (C18.NoCrash (input s))
+
+/-- **`check_language` never raises** (C19 `check_language_nocrash`; without hypothesis on the path since /repo d16b49e) -/
+theorem language_stage_total {σ : Type} (munch : List Char → List Char) (input : σ → Locale.Input)
+    (store : σ → Option Locale.Language → σ) (s : σ) : (languageStage munch input store s).2.2 = false := by
+  unfold languageStage
+  obtain ⟨out, h⟩ := C19.check_language_nocrash munch (input s)
+  rw [h]
+
+/-- the evaluator raises nothing but overflow and division by zero (both reported as tags: `arithmetic_errors_caught`) -/
+theorem eval_errors_closed {bits : Nat} (hb : 1 ≤ bits) (n : Int) (e : Expr) (ex : Py.Exc)
+    (h : Plural.evalAt bits n e = .error ex) : ex = .Overflow ∨ ex = .ZeroDivision :=
+  C04.eval_error_kinds hb n e ex h
+
+/-! ### recursion: what the structural models do not show -/
+
+/-- nesting depth of a plural expression as the AST-walking evaluators of lib/intexpr.py see it -/
+def depth : Expr → Nat
+  | .num _ | .name => 1
+  | .unaryop _ e => depth e + 1
+  | .binop a _ b => max (depth a) (depth b) + 1
+  | .compare a _ b => max (depth a) (depth b) + 1
+  | .boolop _ a b => max (depth a) (depth b) + 1
+  | .ifexp c a b => max (depth c) (max (depth a) (depth b)) + 1
+
+/-- `f` applied `k` times -/
+def iter {α : Type} (f : α → α) : Nat → α → α
+  | 0, a => a
+  | k + 1, a => f (iter f k a)
+
+/-- Python frames the concrete evaluator has on the stack at its deepest point: `_visit` + `_visit_<node>` per nesting level,
+    plus `_visit(op)` → `_visit_<op>` → `_check_overflow` on top of the innermost operator (or `_check_overflow` under a leaf) -/
+def framesNeeded (e : Expr) : Nat := 2 * depth e + 3
+
+/-- left- and right-nested chains: `!`×k n and n (+ n)×k need 2k + 5 frames: linear in the length of the expression, so no
+    fixed recursion limit covers every input (the open finding; `k = 600` is the replayed witness) -/
+theorem recursion_budget (k : Nat) :
+    framesNeeded (iter (Expr.unaryop .not) k .name) = 2 * k + 5 ∧
+    framesNeeded (iter (fun e => Expr.binop e .add .name) k .name) = 2 * k + 5 := by
+  have h1 : ∀ k, depth (iter (Expr.unaryop .not) k .name) = k + 1 := by
+    intro k
+    induction k with
+    | zero => rfl
+    | succ k ih => simp [iter, depth, ih]
+  have h2 : ∀ k, depth (iter (fun e => Expr.binop e .add .name) k .name) = k + 1 := by
+    intro k
+    induction k with
+    | zero => rfl
+    | succ k ih => simp [iter, depth, ih]
+  unfold framesNeeded
+  rw [h1, h2]
+  omega
+
+/-! ## 4. `Checker.check` -/
 
 variable {F σ τ : Type}
 
@@ -151,39 +548,35 @@ theorem broken_encoding_iff (ext : Ext) (hext : ext ≠ .other) (load : Bool →
     · simp [afterLoad]
   · simp [afterLoad]
 
-/-! ## discharging the hypotheses: the MO loader (C09) -/
+/-! ### the MO loader (C09) -/
 
-/-- `polib.mofile(path[, encoding='ISO-8859-1'])` as `check` sees it -/
-def moLoad (db : Mo.CodecDB) (view : Mo.Bytes) (retry : Bool) : Except LoadErr Mo.MoFile :=
-  match Mo.parse db (if retry then some Mo.latin1Name else none) view with
-  | .ok f => .ok f
-  | .error (.syntax _) => .error .moSyntax
-  | .error .decode => .error .unicodeDecode
-  | .error (.crash _) => .error .other
+theorem moLoad_first (db : Mo.CodecDB) (view : Mo.Bytes) (e : LoadErr) (he : moLoad db view false = .error e) :
+    e.handledFirst = true := by
+  unfold moLoad at he
+  simp only [Bool.false_eq_true, if_false] at he
+  rcases hp : Mo.parse db none view with (x | _ | c) | f <;> rw [hp] at he <;> simp only at he
+  · cases he; rfl
+  · cases he; rfl
+  · exact absurd hp (C09.parse_total_closed db none view c)
+  · cases he
+
+theorem moLoad_retry (db : Mo.CodecDB) (hl : C09.Latin1OK db) (view : Mo.Bytes) (e : LoadErr) (he : moLoad db view true = .error e) :
+    e.handledRetry = true := by
+  unfold moLoad at he
+  simp only [if_true] at he
+  rcases hp : Mo.parse db (some Mo.latin1Name) view with (x | _ | c) | f <;> rw [hp] at he <;> simp only at he
+  · cases he; rfl
+  · exact absurd hp (Mo.parse_no_decode db hl.compat hl.total view)
+  · exact absurd hp (C09.parse_total_closed db _ view c)
+  · cases he
 
 /-- **Every byte string with an MO extension**: the loader raises only `moparser.SyntaxError` or
     `UnicodeDecodeError` (C09 `parse_total_closed`), the ISO-8859-1 retry cannot raise the latter, so if no `check_*`
     stage raises the run returns normally. -/
 theorem mo_check_total (db : Mo.CodecDB) (hl : C09.Latin1OK db) (view : Mo.Bytes) (init : Mo.MoFile → Bool → σ)
     (stages : List (Stage σ τ)) (h3 : ∀ st ∈ stages, ∀ s, (st s).2.2 = false) :
-    (check true .mo (moLoad db view) init stages).uncaught = false := by
-  apply check_total _ _ _ _ _ _ _ h3
-  · intro e he
-    unfold moLoad at he
-    simp only [Bool.false_eq_true, if_false] at he
-    rcases hp : Mo.parse db none view with (x | _ | c) | f <;> rw [hp] at he <;> simp only at he
-    · cases he; rfl
-    · cases he; rfl
-    · exact absurd hp (C09.parse_total_closed db none view c)
-    · cases he
-  · intro e he
-    unfold moLoad at he
-    simp only [if_true] at he
-    rcases hp : Mo.parse db (some Mo.latin1Name) view with (x | _ | c) | f <;> rw [hp] at he <;> simp only at he
-    · cases he; rfl
-    · exact absurd hp (Mo.parse_no_decode db hl.compat hl.total view)
-    · exact absurd hp (C09.parse_total_closed db _ view c)
-    · cases he
+    (check true .mo (moLoad db view) init stages).uncaught = false :=
+  check_total _ _ _ _ _ (moLoad_first db view) (moLoad_retry db hl view) h3
 
 /-- the loading phase of this model is C09's `checkerLoad`, tag for tag -/
 theorem mo_load_agrees (db : Mo.CodecDB) (view : Mo.Bytes) :
@@ -192,39 +585,229 @@ theorem mo_load_agrees (db : Mo.CodecDB) (view : Mo.Bytes) :
   unfold Mo.checkerLoad check moLoad
   simp only [Bool.not_true, Bool.false_eq_true, if_false, if_true]
   rcases h1 : Mo.parse db none view with (x | _ | c) | f <;> simp [afterLoad, runStages]
-  rcases h2 : Mo.parse db (some Mo.latin1Name) view with (x | _ | c) | f <;> simp [afterLoad, runStages]
+  rcases h2 : Mo.parse db (some Mo.latin1Name) view with (x | _ | c) | f <;> simp [afterLoad]
 
-/-! ## discharging the hypotheses: `check_plurals` (C04–C07) -/
+/-! ## 5. the command line: exit status, stderr, `-j`, `--unpack-deb` -/
 
-/-- `check_plurals` as a stage: its input is read from the shared state, its tags are printed, an escaping exception
-    stops the run -/
-def pluralsStage {σ : Type} (input : σ → CheckPlurals.Input) (store : σ → Option CheckPlurals.Preimage → σ) :
-    Stage σ TagCall := fun s =>
-  match CheckPlurals.checkPlurals (input s) with
-  | .ok out => (store s out.preimage, out.tags, false)
-  | .error _ => (s, [], true)
+theorem runSeq_ok {α : Type} (checkFile : α → Cli.FileRun) (paths : List α) (h : ∀ p ∈ paths, (checkFile p).uncaught = false) :
+    Cli.runSeq checkFile paths = ((paths.map fun p => (checkFile p).lines).flatten, false) := by
+  induction paths with
+  | nil => rfl
+  | cons p ps ih =>
+    unfold Cli.runSeq
+    simp only [h p (by simp), Bool.false_eq_true, if_false, List.map_cons, List.flatten_cons]
+    rw [ih (fun q hq => h q (List.mem_cons_of_mem _ hq))]
 
-/-- **`check_plurals` never raises**, for every Plural-Forms value, message list and language whose registry
-    strings parse (C05 `codomain_nocrash`, C06 `period_nocrash`, C07 `window_nocrash` / `gap_nocrash`, and the lexer's
-    `ValueError` outcome being unreachable since `fix:` 871d4d7). -/
-theorem plurals_stage_total {σ : Type} (input : σ → CheckPlurals.Input) (store : σ → Option CheckPlurals.Preimage → σ)
-    (hreg : ∀ s, CheckPlurals.RegistryParses (input s)) (s : σ) : (pluralsStage input store s).2.2 = false := by
-  unfold pluralsStage
-  cases h : CheckPlurals.checkPlurals (input s) with
-  | ok out => rfl
-  | error ex => exact absurd h (CheckPlurals.checkPlurals_nocrash (input s) (hreg s) ex)
+theorem runPar_ok {α : Type} (checkFile : α → Cli.FileRun) (paths : List α) (h : ∀ p ∈ paths, (checkFile p).uncaught = false) :
+    Cli.runPar checkFile paths = ((paths.map fun p => (checkFile p).lines).flatten, false) := by
+  induction paths with
+  | nil => rfl
+  | cons p ps ih =>
+    unfold Cli.runPar
+    simp only [h p (by simp), Bool.false_eq_true, if_false, List.map_cons, List.flatten_cons]
+    rw [ih (fun q hq => h q (List.mem_cons_of_mem _ hq))]
 
-/-- the evaluator raises nothing but overflow and division by zero (both reported as tags by `check_plurals`) -/
-theorem eval_errors_closed {bits : Nat} (hb : 1 ≤ bits) (n : Int) (e : Expr) (ex : Py.Exc)
-    (h : Plural.evalAt bits n e = .error ex) : ex = .Overflow ∨ ex = .ZeroDivision :=
-  C04.eval_error_kinds hb n e ex h
+theorem runSeq_fails_iff {α : Type} (checkFile : α → Cli.FileRun) (paths : List α) :
+    (Cli.runSeq checkFile paths).2 = true ↔ ∃ p ∈ paths, (checkFile p).uncaught = true := by
+  induction paths with
+  | nil => simp [Cli.runSeq]
+  | cons p ps ih =>
+    unfold Cli.runSeq
+    cases hp : (checkFile p).uncaught with
+    | true => simp [hp]
+    | false => simp [hp, ih]
 
-/-! ## discharging the hypotheses: the C format parser (C11) -/
+theorem runPar_fails_iff {α : Type} (checkFile : α → Cli.FileRun) (paths : List α) :
+    (Cli.runPar checkFile paths).2 = true ↔ ∃ p ∈ paths, (checkFile p).uncaught = true := by
+  induction paths with
+  | nil => simp [Cli.runPar]
+  | cons p ps ih =>
+    unfold Cli.runPar
+    cases hp : (checkFile p).uncaught with
+    | true => simp [hp]
+    | false => simp [hp, ih]
 
-/-- `strformat.c.FormatString(s)` raises only the module's own `Error` classes, which `check_message` reports as
-    `c-format-string-error`: no other exception, for every string -/
-theorem cformat_errors_own {s : List Char} {e : CFmt.CErr} (h : CFmt.parse s = .error e) : e.own = true :=
-  C11.parse_error_own h
+/-- **the exit status is 0 iff `-l` was not rejected and no `check_file` call raised** — in particular a tag, of whatever
+    severity, never changes it; stderr is empty in exactly the same case -/
+theorem main_rc_zero_iff {α : Type} (lang : Cli.LangOpt) (checkFile : α → Cli.FileRun) (paths : List α) (jobs : Nat) :
+    ((Cli.main lang checkFile paths jobs).rc = 0 ↔ lang ≠ .invalid ∧ ∀ p ∈ paths, (checkFile p).uncaught = false) ∧
+    ((Cli.main lang checkFile paths jobs).stderr = false ↔ (Cli.main lang checkFile paths jobs).rc = 0) := by
+  have key : ∀ (r : List String × Bool), (r.2 = true ↔ ∃ p ∈ paths, (checkFile p).uncaught = true) →
+      (((if r.2 = true then 1 else 0 : Nat) = 0 ↔ ∀ p ∈ paths, (checkFile p).uncaught = false) ∧
+       (r.2 = false ↔ (if r.2 = true then 1 else 0 : Nat) = 0)) := by
+    intro r hr
+    cases h2 : r.2 with
+    | true =>
+      obtain ⟨p, hp, hu⟩ := hr.1 h2
+      refine ⟨⟨fun h => by simp at h, fun h => ?_⟩, by simp⟩
+      rw [h p hp] at hu; cases hu
+    | false =>
+      refine ⟨⟨fun _ p hp => ?_, fun _ => by simp⟩, by simp⟩
+      cases hu : (checkFile p).uncaught with
+      | false => rfl
+      | true => rw [hr.2 ⟨p, hp, hu⟩] at h2; cases h2
+  unfold Cli.main
+  by_cases hl : lang = .invalid
+  · simp [hl]
+  · simp only [hl, if_false, ne_eq, not_false_eq_true, true_and]
+    by_cases hj : paths.length ≤ 1 ∨ jobs ≤ 1
+    · simp only [hj, if_true]
+      exact key _ (runSeq_fails_iff checkFile paths)
+    · simp only [hj, if_false]
+      exact key _ (runPar_fails_iff checkFile paths)
+
+/-- when nothing raises, the run prints the per-file lines in argument order, exits 0 with empty stderr — whatever `-j` -/
+theorem main_ok {α : Type} (lang : Cli.LangOpt) (hl : lang ≠ .invalid) (checkFile : α → Cli.FileRun) (paths : List α) (jobs : Nat)
+    (h : ∀ p ∈ paths, (checkFile p).uncaught = false) :
+    Cli.main lang checkFile paths jobs = ⟨(paths.map fun p => (checkFile p).lines).flatten, false, 0⟩ := by
+  unfold Cli.main
+  simp only [hl, if_false]
+  by_cases hj : paths.length ≤ 1 ∨ jobs ≤ 1
+  · simp [hj, runSeq_ok checkFile paths h]
+  · simp [hj, runPar_ok checkFile paths h]
+
+/-- a rejected `-l` ends the run before any file is read: usage error, status 2 (not a "valid combination of options") -/
+theorem main_invalid_language {α : Type} (checkFile : α → Cli.FileRun) (paths : List α) (jobs : Nat) :
+    Cli.main .invalid checkFile paths jobs = ⟨[], true, 2⟩ := rfl
+
+/-- `check_file` with `--unpack-deb`: no exception if checking the path itself and checking every member raise none — also
+    when the helper cannot unpack the file (/repo 4ff67ee) -/
+theorem checkFile_ok {α : Type} (unpackDeb : Bool) (deb : α → Cli.DebOutcome α) (regular members : α → Cli.FileRun) (p : α)
+    (h1 : (regular p).uncaught = false) (h2 : ∀ ms, deb p = .members ms → ∀ m ∈ ms, (members m).uncaught = false) :
+    (Cli.checkFile unpackDeb deb regular members p).uncaught = false := by
+  unfold Cli.checkFile
+  cases unpackDeb with
+  | false => exact h1
+  | true =>
+    simp only [if_true]
+    cases hd : deb p with
+    | notPackage => exact h1
+    | unpackFailed => exact h1
+    | members ms =>
+      simp only
+      rw [runSeq_ok members ms (h2 ms hd)]
+
+/-! ## 6. the composition -/
+
+/-- one command-line argument, as far as `Checker.check` distinguishes -/
+inductive FileIn (F σ : Type) where
+  /-- `os.stat` fails (missing, dangling link, no permission on a directory of the path), whatever the extension -/
+  | unreadable
+  /-- an extension (or `--file-type`) that is none of po, pot, mo, gmo -/
+  | otherType
+  /-- `.mo` / `.gmo`: any byte string -/
+  | mo (db : Mo.CodecDB) (view : Mo.Bytes) (init : Mo.MoFile → Bool → σ)
+  /-- `.po` / `.pot`: the file as `polib.pofile` sees it (a loader with its retry) -/
+  | po (template : Bool) (load : Bool → Except LoadErr F) (init : F → Bool → σ)
+
+/-- **what the component models still being built must deliver** — one field per closure statement, named after the property
+    that owns it; at merge time each is discharged by that property's theorem, as `language`, `plurals` and `dates` are here -/
+structure Pending {F σ : Type} (st : Stages σ) (files : List (FileIn F σ)) : Prop where
+  /-- C10 (`Model/Po.lean`): `polib.pofile(path)` raises only `UnicodeDecodeError`, `OSError` with an errno, or the
+      `OSError('Syntax error in po file …')` of polib's parser -/
+  c10_po_loader_first : ∀ t load init, FileIn.po t load init ∈ files → ∀ e, load false = .error e → e.handledFirst = true
+  /-- C10: the ISO-8859-1 retry raises none but the last two -/
+  c10_po_loader_retry : ∀ t load init, FileIn.po t load init ∈ files → ∀ e, load true = .error e → e.handledRetry = true
+  /-- C09 side condition on the codec table: ISO-8859-1 is ASCII-compatible and total (true of CPython's) -/
+  c09_latin1 : ∀ db view init, FileIn.mo db view init ∈ files → C09.Latin1OK db
+  /-- C15 (`Model/Hdr.lean`): the header stages raise nothing (`check_mime` includes the codec calls C20 proves closed) -/
+  c15_comments : ∀ s, (st.comments s).2.2 = false
+  c15_headers : ∀ s, (st.headers s).2.2 = false
+  c15_mime : ∀ s, (st.mime s).2.2 = false
+  c15_project : ∀ s, (st.project s).2.2 = false
+  c15_translator : ∀ s, (st.translator s).2.2 = false
+  /-- C16 (`Model/Msg.lean`), resting on C13 (brace parsers raise only their own `Error`: `braceCheckString_nocrash`) and C14
+      (`check_args` raises nothing); the C and Python `check_string` calls inside are `cCheckString_nocrash` / `pyCheckString_nocrash` -/
+  c16_messages : ∀ s, (st.messages s).2.2 = false
+
+/-- `check_file(path)` for such an argument (without `--unpack-deb`: `checkFile_ok` adds it) -/
+def FileIn.run {F σ : Type} (fmt : Line TagName → String) (st : Stages σ) : FileIn F σ → Cli.FileRun
+  | .unreadable => ⟨[fmt .osError], false⟩
+  | .otherType => ⟨[fmt .unknownFileType], false⟩
+  | .mo db view init => regularRun fmt true .mo (moLoad db view) init st
+  | .po t load init => regularRun fmt true (if t then .pot else .po) load init st
+
+/-- the two short cases are what `Checker.check` does, whatever the loader would have done -/
+theorem run_unreadable {F σ : Type} (fmt : Line TagName → String) (st : Stages σ) (ext : Ext) (load : Bool → Except LoadErr F)
+    (init : F → Bool → σ) :
+    regularRun fmt false ext load init st = FileIn.run (F := F) fmt st .unreadable ∧
+    regularRun fmt true .other load init st = FileIn.run (F := F) fmt st .otherType := ⟨rfl, rfl⟩
+
+/-- with the three discharged stages in place and the pending ones assumed, no stage raises -/
+theorem stages_total {F σ : Type} (st : Stages σ) (files : List (FileIn F σ)) (pend : Pending st files)
+    (munch : List Char → List Char) (inL : σ → Locale.Input) (storeL : σ → Option Locale.Language → σ)
+    (inP : σ → CheckPlurals.Input) (storeP : σ → Option CheckPlurals.Preimage → σ) (inD : σ → Date.Ctx)
+    (hlang : st.language = languageStage munch inL storeL)
+    (hplur : st.plurals = pluralsStage inP storeP) (hreg : ∀ s, CheckPlurals.RegistryParses (inP s))
+    (hdates : st.dates = datesStage inD) :
+    ∀ sg ∈ st.list, ∀ s, (sg s).2.2 = false := by
+  intro sg hm s
+  simp only [Stages.list, List.mem_cons, List.not_mem_nil, or_false] at hm
+  rcases hm with rfl | rfl | rfl | rfl | rfl | rfl | rfl | rfl | rfl
+  · exact pend.c15_comments s
+  · exact pend.c15_headers s
+  · rw [hlang]; exact language_stage_total munch inL storeL s
+  · rw [hplur]; exact plurals_stage_total inP storeP hreg s
+  · exact pend.c15_mime s
+  · rw [hdates]; exact dates_stage_total inD s
+  · exact pend.c15_project s
+  · exact pend.c15_translator s
+  · exact pend.c16_messages s
+
+/-- **pipeline_nocrash** — for every list of arguments (unreadable paths, files of another type, arbitrary byte strings with
+    an MO extension, PO/POT files), every `-l` that is not rejected, every `-j`: the process exits with status 0, writes
+    nothing to stderr, and every stdout line is the rendering of a tag call (`fmt`, i.e. C02's `Tag.format`).
+    Discharged here for all inputs: the MO loader (C09), `check_language` (C19), `check_plurals` (C04–C07; registry strings
+    parse), `check_dates` (C18).  Assumed, by name: `Pending` (C10, C15, C16 ⊇ C13, C14). -/
+theorem pipeline_nocrash {F σ : Type} (fmt : Line TagName → String) (st : Stages σ) (files : List (FileIn F σ))
+    (munch : List Char → List Char) (inL : σ → Locale.Input) (storeL : σ → Option Locale.Language → σ)
+    (inP : σ → CheckPlurals.Input) (storeP : σ → Option CheckPlurals.Preimage → σ) (inD : σ → Date.Ctx)
+    (hlang : st.language = languageStage munch inL storeL)
+    (hplur : st.plurals = pluralsStage inP storeP) (hreg : ∀ s, CheckPlurals.RegistryParses (inP s))
+    (hdates : st.dates = datesStage inD)
+    (pend : Pending st files) (lang : Cli.LangOpt) (hl : lang ≠ .invalid) (jobs : Nat) :
+    (Cli.main lang (FileIn.run fmt st) files jobs).rc = 0 ∧
+    (Cli.main lang (FileIn.run fmt st) files jobs).stderr = false ∧
+    ∀ l ∈ (Cli.main lang (FileIn.run fmt st) files jobs).stdout, ∃ x : Line TagName, l = fmt x := by
+  have hst := stages_total st files pend munch inL storeL inP storeP inD hlang hplur hreg hdates
+  have hfile : ∀ f ∈ files, (FileIn.run fmt st f).uncaught = false := by
+    intro f hf
+    cases f with
+    | unreadable => rfl
+    | otherType => rfl
+    | mo db view init =>
+      exact mo_check_total db (pend.c09_latin1 db view init hf) view init st.list hst
+    | po t load init =>
+      exact check_total _ _ _ _ _ (pend.c10_po_loader_first t load init hf) (pend.c10_po_loader_retry t load init hf) hst
+  rw [main_ok lang hl _ files jobs hfile]
+  refine ⟨rfl, rfl, ?_⟩
+  intro l hl'
+  simp only [List.mem_flatten, List.mem_map] at hl'
+  obtain ⟨ls, ⟨f, _, rfl⟩, hmem⟩ := hl'
+  cases f with
+  | unreadable => simp only [FileIn.run, List.mem_singleton] at hmem; exact ⟨_, hmem⟩
+  | otherType => simp only [FileIn.run, List.mem_singleton] at hmem; exact ⟨_, hmem⟩
+  | mo db view init =>
+    simp only [FileIn.run, regularRun, List.mem_map] at hmem
+    obtain ⟨x, _, rfl⟩ := hmem
+    exact ⟨x, rfl⟩
+  | po t load init =>
+    simp only [FileIn.run, regularRun, List.mem_map] at hmem
+    obtain ⟨x, _, rfl⟩ := hmem
+    exact ⟨x, rfl⟩
+
+/-- the converse direction, so that the hypotheses are seen to be needed: if a stage raises on the state a loaded file
+    produces, the run ends with a traceback and status 1 -/
+theorem pipeline_crash_visible {F σ : Type} (fmt : Line TagName → String) (st : Stages σ) (load : Bool → Except LoadErr F)
+    (init : F → Bool → σ) (f : F) (hload : load false = .ok f) (hraise : (runStages st.list (init f false)).2 = true)
+    (lang : Cli.LangOpt) (hl : lang ≠ .invalid) (jobs : Nat) :
+    (Cli.main lang (FileIn.run fmt st) [FileIn.po false load init] jobs).rc = 1 ∧
+    (Cli.main lang (FileIn.run fmt st) [FileIn.po false load init] jobs).stderr = true := by
+  have hu : (FileIn.run fmt st (FileIn.po false load init)).uncaught = true := by
+    simp only [FileIn.run, regularRun, Bool.false_eq_true, if_false]
+    exact (check_uncaught_iff true .po load init st.list).2 ⟨rfl, by decide, .inr (.inr (.inl ⟨f, hload, hraise⟩))⟩
+  unfold Cli.main
+  simp [hl, Cli.runSeq, hu]
 
 /-! ## what is printed -/
 
@@ -246,5 +829,16 @@ example : check (F := Unit) (σ := Unit) (τ := String) true .mo
     (fun r => if r then .error .moSyntax else .error .unicodeDecode) (fun _ _ => ()) []
     = ⟨[.invalidMoFile, .brokenEncoding], false⟩ := by rfl
 example : (check (F := Unit) (σ := Unit) (τ := String) true .po (fun _ => .error .osOther) (fun _ _ => ()) []).uncaught = true := by rfl
+/-- three files, the second raises: sequentially its partial output is printed and the third file is never read; with `-j 2`
+    the partial output is lost; either way status 1 -/
+example : Cli.main .absent (fun n : Nat => if n = 2 then ⟨["x"], true⟩ else ⟨[toString n], false⟩) [1, 2, 3] 1 = ⟨["1", "x"], true, 1⟩ := by decide
+example : Cli.main .absent (fun n : Nat => if n = 2 then ⟨["x"], true⟩ else ⟨[toString n], false⟩) [1, 2, 3] 2 = ⟨["1"], true, 1⟩ := by decide
+example : Cli.main .valid (fun n : Nat => ⟨[toString n], false⟩) [1, 2, 3] 4 = ⟨["1", "2", "3"], false, 0⟩ := by decide
+/-- the class tables are not empty shells: an `IndexError` thrown by a C format parser would NOT be caught by `check_string` -/
+example : dispatch cErrSite.handlers (cls "builtins.IndexError") = none := by decide
+example : (cCheckString "%d %1$d".toList).tags = ["c-format-string-error"] := by decide +kernel
+example : (cCheckString "%hhd".toList).uncaught = none := cCheckString_nocrash _
+example : (pyCheckString "%(a)s %s".toList).tags = ["python-format-string-error"] := by decide +kernel
+example : framesNeeded (iter (Expr.unaryop .not) 600 .name) = 1205 := (recursion_budget 600).1
 
 end I18n.Props.C01
